@@ -204,6 +204,17 @@ func histMain(args []string) error {
 			return err
 		}
 	}
-	fmt.Printf("{\"scripts\":%d}\n", len(scripts))
+	nsel := 0
+	for _, st := range stList {
+		for _, b := range results[st] {
+			var r histRec
+			if json.Unmarshal(b, &r) == nil {
+				for _, o := range r.Obs {
+					nsel += len(o.Sel)
+				}
+			}
+		}
+	}
+	fmt.Printf("{\"scripts\":%d,\"selections\":%d}\n", len(scripts), nsel)
 	return nil
 }
